@@ -1419,8 +1419,10 @@ impl<'a> Interp<'a> {
                         format!("status().max_size is {} after resize({}) returned", a.max_size, n),
                     );
                 }
-                // idle objects in excess of n have been released
-                if a.size > n && a.idle > 0 && before.is_some() {
+                // idle objects in excess of n have been released: judged against the objects that
+                // really exist (the pool's own size counter may be what is wrong)
+                let live = self.world.w().objs.iter().filter(|o| !o.destroyed && o.loc != Loc::Out).count();
+                if (a.size > n || live > n) && a.idle > 0 && before.is_some() {
                     self.c07_idle_surplus(n, a);
                 }
             }
